@@ -3,7 +3,19 @@ import GqlProofs.ValSpec.Stateful
 import GqlProofs.ValSpec.Spreads
 import GqlProofs.ValSpec.KnownDirs
 import GqlProofs.ValSpec.LeafFrag
+import GqlProofs.ValSpec.TypeRules
+import GqlProofs.ValSpec.Cycles
+import GqlProofs.ValSpec.InputFields
+import GqlProofs.ValSpec.SingleRootFinal
+import GqlProofs.ValSpec.SingleRootEx
+import GqlProofs.ValSpec.IntrospectionLinks
+import GqlProofs.ValSpec.PossibleSpreads
+import GqlProofs.ValSpec.UnusedFragments
+import GqlProofs.ValSpec.VarRules
+import GqlProofs.ValSpec.VarPosition
+import GqlProofs.ValSpec.ValuesCorrectFinal
 import GqlProofs.Validate.OverlapSound
+import GqlProofs.Props.C18
 import GqlProofs.Validate.OverlapWitness
 /-
   C08 — validation accepts exactly what the rules allow.
@@ -51,14 +63,71 @@ import GqlProofs.Validate.OverlapWitness
   and finds the input fields of an input object used as a parent, which the rule-by-rule comparison
   of the check masks for the same reason.
 
+  Second group (helper files `GqlProofs/ValSpec/{ReachClosure,ScopeSound,ScopeComplete,ScopeLinks,ValBlocks,…}.lean`:
+  `Spec.reachFrom` is the reflexive-transitive closure of "spreads through defined fragments";
+  per-operation scope of the walk — an event fired while `CurrentOperation = op` is about a node /
+  directive list written in `op` or in a fragment definition reachable from it, and every such node
+  has its event and is marked as linked at the `operation` event; the value events of a run are the
+  typed sites of the argument lists of its `field` / `directive` events and of the variable defaults):
+    C08_UniqueInputFieldNames    §5.6.3 (values shaped as the parser builds them: only list and object
+                                 literals have children — the specification predicate also looks below
+                                 other kinds, the walker like Go does not)
+    C08_KnownTypeNames           §5.5.1.2 ∧ existence of variable types (no hypothesis); `…WithoutSuggestions`
+    C08_VariablesAreInputTypes   §5.8.2 (masked by the existence of the variable types; `_iff`: what the
+                                 rule really tests; joint form with KnownTypeNames without hypothesis)
+    C08_KnownRootType            library rule (no hypothesis: an unparseable operation kind makes the rule
+                                 panic and the specification predicate false); `_panic_iff`
+    C08_NoFragmentCycles         §5.5.2.2 (masked by fragment name uniqueness; unconditionally the rule
+                                 decides `Acyclic`; the direction specification ⇒ silent needs nothing)
+    C08_NoUnusedFragments        §5.5.1.4 (masked by NoFragmentCycles and fragment name uniqueness: the rule
+                                 asks for reachability from an operation — plus the "first fragment quirk" —,
+                                 the specification text for a spread anywhere; `_complete`, `_reach`)
+    C08_NoUndefinedVariables     §5.8.3, C08_NoUnusedVariables §5.8.4 (fragment name uniqueness, constant
+                                 default values; variable name uniqueness for the second)
+    C08_PossibleFragmentSpreads  §5.5.2.3 (well-parented document, no type named "", `possibleOK s`:
+                                 `GetPossibleTypes` is what the definitions imply — loaded schemas: `_loaded`)
+    C08_SingleFieldSubscriptions §5.2.3.1 (`subscriptionRootExact s`; spreads defined, fragment definitions
+                                 have a type condition, at least one root field is collected, equal response
+                                 keys mean equal field names; `_exact`: the rule in its own terms; `_loaded`)
+    C08_MaxIntrospectionDepth    library rule (masked by NoFragmentCycles; `_sound` without hypothesis)
+    C08_VariablesInAllowedPosition §5.8.5 MODULO the recorded finding (the rule ignores the default value of
+                                 the LOCATION): `_iff` is the rule-exact characterisation (location default
+                                 ignored), `C08_VariablesInAllowedPosition` / `_harmless` the equivalence
+                                 where no usage depends on a location default, `_complete` the direction
+                                 that always holds, `_counterexample_location_default` the witness.
+    C08_ValuesOfCorrectType      §5.6.1 / 5.6.2 / 5.6.4 and the `@oneOf` clauses (`Spec.valuesOfCorrectType ∧
+                                 Spec.oneOfVariablesNonNull`): well-parented document, fragment name
+                                 uniqueness, constant defaults, `schemaOK s` (a definition named like a
+                                 built-in scalar is that scalar, scalars declare no fields, input-field types
+                                 resolve to input types), `rootsInput` (declared types of typed values resolve
+                                 to input types), `numLiteralsOK` (numeric literals are lexemes on which the
+                                 library's conversion and the specification's range tests agree — PROVED for
+                                 Int (`int_lexeme_agree`), hypothesis for Float; it also excludes the finding
+                                 below), `leavesWellFormed`, `usePosDistinct`; `_loaded`, `_partial` (no
+                                 `@oneOf`), `_closed`, `_complete`.
+  Every hypothesis has a satisfiability example and (where one exists) a kernel-checked
+  counterexample next to the theorem or in `GqlProofs/ValSpec/*Ex.lean`.
+
+  FINDING met on the way (confirmed on the real validator with the driver ops): an IntValue that
+  does not fit a finite double, given where a Float is expected (`{ f(a: 1<309 zeros>) }` with
+  `a: Float`), is accepted by ValuesOfCorrectType — the Int-at-Float branch has no range test — and
+  rejected by `Spec.valuesOfCorrectType` (§3.5.2: a value not representable by finite IEEE 754 is a
+  request error): `ValuesEx.bigInt` in `GqlProofs/ValSpec/ValuesCorrectEx.lean`.
+
+  Capstone: C08_default_rules_iff_spec_partial — the 26 default rules above run TOGETHER report
+  nothing iff the 27 predicates of `Spec.specVerdicts` they stand for hold (all but field merging
+  §5.3.2), under `C08Hyps` (parser shape of the document, loader invariants of the schema, and the
+  side conditions named above that are not specification predicates themselves); the masked forms
+  need no hypothesis there.
+
   NOT finished (the full statement, kept as the goal):
     C08_verdict : Closed s → (validate defaultRules s d = .ok [] ↔ Spec.specValid s d = true)
-  It is FALSE for the current tree: the check `vcheck -prop C08` finds the deviations R8b–R8e, N1,
-  N2 (DESIGN §7) and two more on the real validator, and the rule models reproduce them.  Rules
-  without a theorem yet: KnownRootType, KnownTypeNames, MaxIntrospectionDepth, NoFragmentCycles,
-  NoUndefinedVariables, NoUnusedFragments, NoUnusedVariables, PossibleFragmentSpreads,
-  SingleFieldSubscriptions, UniqueInputFieldNames, ValuesOfCorrectType, VariablesAreInputTypes,
-  VariablesInAllowedPosition (and OverlappingFieldsCanBeMerged, which has no model in this tree).
+  It is FALSE for the current tree as stated: the recorded finding about VariablesInAllowedPosition
+  (DESIGN §7 R8e, KNOWN_FINDINGS) and the Int-at-Float finding above are counterexamples; and the
+  hypotheses of `C08Hyps` that are not consequences of `Closed s` + "parsed document" mark inputs on
+  which single rules and their predicates differ while both sides reject (the check compares those
+  under masks).  The one rule without an equivalence theorem: OverlappingFieldsCanBeMerged
+  (soundness of every reported conflict is proved below).
 -/
 open Gql Gql.Validate Gql.Validate.Rules
 
@@ -455,7 +524,7 @@ example : validate [overlappingFieldsCanBeMerged] OverlapWitness.schema OverlapW
 #print axioms C08_overlap_sameArguments_spec
 #print axioms C08_overlap_sameValue_spec
 
-/- SingleFieldSubscriptions (§5.2.3.1, no equivalence theorem yet): a fragment contributes root fields
+/- SingleFieldSubscriptions (§5.2.3.1; the equivalence is `C08_SingleFieldSubscriptions` below): a fragment contributes root fields
    only if its type condition can apply to the subscription root type (`topApplies`).  Witnesses on
    a schema whose subscription root is `S` (`T` is not a type that can be `S`): -/
 namespace SingleRootWitness
@@ -475,3 +544,1071 @@ example : validate [singleFieldSubscriptions] SingleRootWitness.schema (SingleRo
 example : (match validate [singleFieldSubscriptions] SingleRootWitness.schema (SingleRootWitness.doc "S") with
     | .ok [_] => true
     | _ => false) = true := by decide
+
+/-! ## UniqueInputFieldNames -/
+section C08
+open Gql Gql.Validate Gql.Validate.Rules
+
+/-- §5.6.3 — UniqueInputFieldNames reports nothing iff the fields of every input object literal of
+    the document have different names (documents whose values have the parser's shape: only list
+    and object literals have children) -/
+theorem C08_UniqueInputFieldNames (s : Schema) (d : QueryDoc) (hsh : valuesShaped s d = true) :
+    validate [uniqueInputFieldNames] s d = .ok [] ↔ Spec.inputObjectFieldUniqueness s d = true := by
+  obtain ⟨evs, hw⟩ := walkDoc_isSome s.view d
+  unfold uniqueInputFieldNames
+  rw [validate_stateless_nil s d _ _ evs hw]
+  exact uniqueInputFieldNames_iff s d evs hw hsh
+
+/-- without the shape hypothesis: the specification predicate makes the rule silent -/
+theorem C08_UniqueInputFieldNames_sound (s : Schema) (d : QueryDoc) (h : Spec.inputObjectFieldUniqueness s d = true) : validate [uniqueInputFieldNames] s d = .ok [] := by
+  obtain ⟨evs, hw⟩ := walkDoc_isSome s.view d
+  unfold uniqueInputFieldNames
+  rw [validate_stateless_nil s d _ _ evs hw]
+  exact uniqueInputFieldNames_sound s d evs hw h
+
+/- The shape hypothesis.  `{ f(a: <v>) }` on the empty schema: -/
+namespace InputFieldsWitness
+def doc (v : Value) : QueryDoc :=
+  { ops := [{ op := opQuery, name := [], vars := [], dirs := [],
+              sel := .cons (.field [] (str "f") [⟨str "a", v, Pos.zero⟩] [] .nil Pos.zero) .nil, pos := Pos.zero }],
+    frags := [] }
+def int1 : Value := .mk .int (str "1") .nil Pos.zero
+/-- `{x: 1, x: 1}` -/
+def dupObj : Value := .mk .object [] (.cons (str "x") int1 Pos.zero (.cons (str "x") int1 Pos.zero .nil)) Pos.zero
+/-- `[{x: 1, x: 1}]` -/
+def dupInList : Value := .mk .list [] (.cons [] dupObj Pos.zero .nil) Pos.zero
+/-- not a value the parser builds: an Int literal that has `{x: 1, x: 1}` as a child -/
+def dupBelowInt : Value := .mk .int (str "1") (.cons [] dupObj Pos.zero .nil) Pos.zero
+end InputFieldsWitness
+
+open InputFieldsWitness in
+/-- the shape hypothesis is satisfiable on documents with (nested, duplicate) object literals, and
+    both sides of the equivalence reject there -/
+example : valuesShaped Schema.empty (doc dupInList) = true ∧
+    Spec.inputObjectFieldUniqueness Schema.empty (doc dupInList) = false ∧
+    validate [uniqueInputFieldNames] Schema.empty (doc dupInList) ≠ .ok [] := by decide
+
+open InputFieldsWitness in
+/-- without it the equivalence fails: the walker (like the Go walker) does not descend below a
+    value that is neither a list nor an object, the specification predicate does -/
+example : valuesShaped Schema.empty (doc dupBelowInt) = false ∧
+    validate [uniqueInputFieldNames] Schema.empty (doc dupBelowInt) = .ok [] ∧
+    Spec.inputObjectFieldUniqueness Schema.empty (doc dupBelowInt) = false := by decide
+
+#print axioms C08_UniqueInputFieldNames
+#print axioms C08_UniqueInputFieldNames_sound
+
+end C08
+
+/-! ## KnownTypeNames, VariablesAreInputTypes, KnownRootType -/
+section C08
+open Gql Gql.Validate Gql.Validate.Rules
+
+/-- §5.5.1.2 (and the existence of variable types) — KnownTypeNames reports nothing iff every type
+    condition written in the document (fragment definitions; inline fragments that have one) and
+    the named type of every variable definition is defined in the schema.  No hypothesis: an inline
+    fragment without type condition is skipped by the rule and by `Spec.typeConditions` alike, and a
+    fragment definition with the (unparseable) empty type condition is looked up by both. -/
+theorem C08_KnownTypeNames (s : Schema) (d : QueryDoc) :
+    validate [knownTypeNames] s d = .ok [] ↔
+      (Spec.fragmentSpreadTypeExistence s d = true ∧ Spec.variableTypesExist s d = true) := by
+  obtain ⟨evs, hw⟩ := walkDoc_isSome s.view d
+  unfold knownTypeNames
+  rw [validate_stateless_nil s d _ _ evs hw]
+  exact knownTypeNames_iff s d evs hw
+
+/-- the twin rule without suggestions is silent on exactly the same documents -/
+theorem C08_KnownTypeNamesWithoutSuggestions (s : Schema) (d : QueryDoc) :
+    validate [knownTypeNamesWithoutSuggestions] s d = .ok [] ↔
+      (Spec.fragmentSpreadTypeExistence s d = true ∧ Spec.variableTypesExist s d = true) := by
+  unfold knownTypeNamesWithoutSuggestions
+  rw [validate_withoutSuggestions_nil]
+  exact C08_KnownTypeNames s d
+
+/-- what VariablesAreInputTypes really tests: every variable whose named type EXISTS has an input
+    type (the rule is silent on a variable of an undefined type; KnownTypeNames reports that) -/
+theorem C08_VariablesAreInputTypes_iff (s : Schema) (d : QueryDoc) :
+    validate [variablesAreInputTypes] s d = .ok [] ↔
+      (d.ops.all fun op => op.vars.all fun v =>
+        match s.type? v.type.name with | some t => Spec.isInput t | none => true) = true := by
+  obtain ⟨evs, hw⟩ := walkDoc_isSome s.view d
+  unfold variablesAreInputTypes
+  rw [validate_stateless_nil s d _ _ evs hw]
+  exact variablesAreInputTypes_iff s d evs hw
+
+/-- §5.8.2, masked form — for documents whose variable types all exist, VariablesAreInputTypes
+    reports nothing iff the specification predicate holds -/
+theorem C08_VariablesAreInputTypes (s : Schema) (d : QueryDoc) (hex : Spec.variableTypesExist s d = true) :
+    validate [variablesAreInputTypes] s d = .ok [] ↔ Spec.variablesAreInputTypes s d = true := by
+  rw [C08_VariablesAreInputTypes_iff]
+  exact variablesAreInputTypes_masked s d hex
+
+/-- §5.5.1.2 ∧ §5.8.2, joint form without hypothesis: KnownTypeNames and VariablesAreInputTypes are
+    both silent iff every type condition is defined and every variable has an (existing) input type -/
+theorem C08_KnownTypeNames_VariablesAreInputTypes (s : Schema) (d : QueryDoc) :
+    (validate [knownTypeNames] s d = .ok [] ∧ validate [variablesAreInputTypes] s d = .ok []) ↔
+      (Spec.fragmentSpreadTypeExistence s d = true ∧ Spec.variablesAreInputTypes s d = true) := by
+  rw [C08_KnownTypeNames]
+  constructor
+  · rintro ⟨⟨h1, h2⟩, h3⟩
+    exact ⟨h1, (C08_VariablesAreInputTypes s d h2).1 h3⟩
+  · rintro ⟨h1, h2⟩
+    have hex := variablesAreInputTypes_exist s d h2
+    exact ⟨⟨h1, hex⟩, (C08_VariablesAreInputTypes s d hex).2 h2⟩
+
+/-- library rule — KnownRootType reports nothing (and does not panic) iff the schema defines the
+    root type of the kind of every operation.  NO hypothesis on the operation kinds is needed: for a
+    kind the parser never produces the rule panics (so the run is not `.ok []`) and
+    `Spec.rootDef` is `none` (so the specification predicate is false). -/
+theorem C08_KnownRootType (s : Schema) (d : QueryDoc) :
+    validate [knownRootType] s d = .ok [] ↔ Spec.knownRootType s d = true := by
+  obtain ⟨evs, hw⟩ := walkDoc_isSome s.view d
+  unfold knownRootType
+  rw [validate_statelessP_nil s d _ _ evs hw]
+  exact knownRootType_iff s d evs hw
+
+/-- the form with the parser-kinds hypothesis, as used by the other C08 theorems (a corollary) -/
+theorem C08_KnownRootType_parserKinds (s : Schema) (d : QueryDoc) (_hk : ∀ op ∈ d.ops, op.op ∈ parserOpKinds) :
+    validate [knownRootType] s d = .ok [] ↔ Spec.knownRootType s d = true :=
+  C08_KnownRootType s d
+
+/-- KnownRootType panics exactly when some operation has a kind the parser never produces; for
+    parser-produced documents it never does -/
+theorem C08_KnownRootType_panic_iff (s : Schema) (d : QueryDoc) :
+    (∃ m, validate [knownRootType] s d = .panic m) ↔ ∃ op ∈ d.ops, op.op ∉ parserOpKinds :=
+  knownRootType_panic_iff s d
+
+/- ---------- witnesses (kernel-checked) ---------- -/
+namespace TypeRulesWitness
+def at' (n : Nat) : Pos := { start := n, stop := n + 1, line := 1, col := n + 1 }
+def tNamed (n : String) : GType := .named (str n) false Pos.zero
+def scalar (n : String) : Definition :=
+  { kind := .scalar, desc := [], name := str n, dirs := [], interfaces := [], fields := [], types := [],
+    enumValues := [], pos := Pos.zero, builtIn := true }
+
+def objectDef (n : String) : Definition :=
+  { kind := .object, desc := [], name := str n, dirs := [], interfaces := [],
+    fields := [{ desc := [], name := str "f", args := [], default := none, type := tNamed "Int", dirs := [], pos := Pos.zero }],
+    types := [], enumValues := [], pos := Pos.zero, builtIn := false }
+
+/-- `type Query { f: Int }` with the scalar `Int` -/
+def schema : Schema :=
+  { Schema.empty with
+    query := some (str "Query"),
+    types := [(str "Int", scalar "Int"), (str "Query", objectDef "Query")] }
+
+def fld : Selection := .field [] (str "f") [] [] .nil (at' 30)
+
+/-- `<kind> ($v: <ty>) { f }` -/
+def docVar (kind ty : String) : QueryDoc :=
+  { ops := [{ op := str kind, name := [],
+              vars := [{ var := str "v", type := tNamed ty, default := none, dirs := [], pos := at' 7 }],
+              dirs := [], sel := .cons fld .nil, pos := at' 0 }],
+    frags := [] }
+
+/-- `{ ... on <tc> { f } }` (`tc = ""`: `{ ... { f } }`) -/
+def docInline (tc : String) : QueryDoc :=
+  { ops := [{ op := str "query", name := [], vars := [], dirs := [],
+              sel := .cons (.inline (str tc) [] (.cons fld .nil) (at' 2)) .nil, pos := at' 0 }],
+    frags := [] }
+end TypeRulesWitness
+open TypeRulesWitness
+
+/-- KnownTypeNames, both sides true: `query ($v: Int) { f }` … -/
+example : validate [knownTypeNames] schema (docVar "query" "Int") = .ok [] ∧
+    (Spec.fragmentSpreadTypeExistence schema (docVar "query" "Int") = true ∧
+      Spec.variableTypesExist schema (docVar "query" "Int") = true) := by decide
+/-- … and `{ ... { f } }`: an inline fragment without type condition is skipped by both sides -/
+example : validate [knownTypeNames] schema (docInline "") = .ok [] ∧
+    Spec.fragmentSpreadTypeExistence schema (docInline "") = true := by decide
+/-- both sides false: `{ ... on Nope { f } }` (type condition) and `query ($v: Nope) { f }` (variable type) -/
+example : validate [knownTypeNames] schema (docInline "Nope") ≠ .ok [] ∧
+    Spec.fragmentSpreadTypeExistence schema (docInline "Nope") = false := by decide
+example : validate [knownTypeNames] schema (docVar "query" "Nope") ≠ .ok [] ∧
+    Spec.variableTypesExist schema (docVar "query" "Nope") = false := by decide
+
+/-- the hypothesis `hex` of `C08_VariablesAreInputTypes` is NEEDED: on `query ($v: Nope) { f }` (a
+    variable of an undefined type) the rule is silent and the specification predicate is false -/
+example : validate [variablesAreInputTypes] schema (docVar "query" "Nope") = .ok [] ∧
+    Spec.variablesAreInputTypes schema (docVar "query" "Nope") = false ∧
+    Spec.variableTypesExist schema (docVar "query" "Nope") = false := by decide
+/-- … and satisfiable: `query ($v: Int) { f }` (both sides true), `query ($v: Query) { f }` (both false) -/
+example : Spec.variableTypesExist schema (docVar "query" "Int") = true ∧
+    validate [variablesAreInputTypes] schema (docVar "query" "Int") = .ok [] ∧
+    Spec.variablesAreInputTypes schema (docVar "query" "Int") = true := by decide
+example : Spec.variableTypesExist schema (docVar "query" "Query") = true ∧
+    validate [variablesAreInputTypes] schema (docVar "query" "Query") ≠ .ok [] ∧
+    Spec.variablesAreInputTypes schema (docVar "query" "Query") = false := by decide
+
+/-- KnownRootType: an operation of kind `foo` makes the run panic — and the specification predicate
+    is false there, so `C08_KnownRootType` needs no hypothesis on the kinds -/
+example : validate [knownRootType] schema (docVar "foo" "Int") = .panic (str "got unknown operation type \"foo\"") ∧
+    Spec.knownRootType schema (docVar "foo" "Int") = false := by decide
+/-- both sides true (`query`), both false without panic (`mutation`: the schema has no mutation type) -/
+example : (∀ op ∈ (docVar "query" "Int").ops, op.op ∈ parserOpKinds) ∧
+    validate [knownRootType] schema (docVar "query" "Int") = .ok [] ∧
+    Spec.knownRootType schema (docVar "query" "Int") = true := by decide
+example : (∀ op ∈ (docVar "mutation" "Int").ops, op.op ∈ parserOpKinds) ∧
+    (match validate [knownRootType] schema (docVar "mutation" "Int") with | .ok [_] => true | _ => false) = true ∧
+    Spec.knownRootType schema (docVar "mutation" "Int") = false := by decide
+
+#print axioms C08_KnownTypeNames
+#print axioms C08_KnownTypeNamesWithoutSuggestions
+#print axioms C08_VariablesAreInputTypes_iff
+#print axioms C08_VariablesAreInputTypes
+#print axioms C08_KnownTypeNames_VariablesAreInputTypes
+#print axioms C08_KnownRootType
+#print axioms C08_KnownRootType_parserKinds
+#print axioms C08_KnownRootType_panic_iff
+
+end C08
+
+/-! ## NoFragmentCycles -/
+section C08
+open Gql Gql.Validate Gql.Validate.Rules
+
+/-- NoFragmentCycles (§5.5.2.2), masked form: for a document with unique fragment names
+    (UniqueFragmentNames / §5.5.1.1) the rule reports nothing iff no fragment reaches itself through
+    spreads.  The direction `Spec.noFragmentCycles d = true → silent` holds without the hypothesis
+    (`noFragmentCycles_silent_of_spec`); unconditionally the rule is silent iff `Acyclic d`
+    (`validate_noFragmentCycles`, decidable as `acyclicB`); `noFragmentCycles_needs_unique` is the
+    counterexample without the hypothesis. -/
+theorem C08_NoFragmentCycles (s : Schema) (d : QueryDoc) (hu : Spec.fragmentNameUniqueness d = true) :
+    validate [noFragmentCycles] s d = .ok [] ↔ Spec.noFragmentCycles d = true :=
+  noFragmentCycles_iff s d hu
+
+#print axioms C08_NoFragmentCycles
+#print axioms Gql.Validate.validate_noFragmentCycles
+#print axioms Gql.Validate.noFragmentCycles_needs_unique
+end C08
+
+/-! ## PossibleFragmentSpreads -/
+section C08
+open Gql Gql.Validate Gql.Validate.Rules
+
+/-- §5.5.2.3 — PossibleFragmentSpreads reports nothing iff every fragment spread (named or inline) with a
+    determined composite parent type and composite fragment type can apply -/
+theorem C08_PossibleFragmentSpreads (s : Schema) (d : QueryDoc) (hwp : Spec.wellParented s d = true)
+    (hE : s.type? [] = none) (hok : possibleOK s = true) :
+    validate [possibleFragmentSpreads] s d = .ok [] ↔ Spec.fragmentSpreadIsPossible s d = true := by
+  obtain ⟨evs, hw⟩ := walkDoc_isSome s.view d
+  unfold possibleFragmentSpreads
+  rw [validate_stateless_nil s d _ _ evs hw]
+  exact possibleFragmentSpreads_iff s d evs hw hwp hE hok
+
+#print axioms C08_PossibleFragmentSpreads
+
+/-- every loaded schema satisfies the schema hypothesis (`C07_relations_exact`, `C07_closed_keys`) -/
+theorem C08_PossibleFragmentSpreads_loaded (s : Schema) (d : QueryDoc) (hr : Gql.Spec.RelationsExact s)
+    (hk : Gql.Spec.KeysConsistent s) (hwp : Spec.wellParented s d = true) (hE : s.type? [] = none) :
+    validate [possibleFragmentSpreads] s d = .ok [] ↔ Spec.fragmentSpreadIsPossible s d = true :=
+  C08_PossibleFragmentSpreads s d hwp hE (possibleOK_of_relationsExact s hr hk)
+
+/- Witnesses: the hypotheses are satisfiable, the theorem is not vacuous on either side, and none of the
+   three hypotheses can be dropped. -/
+namespace PossibleSpreadsWitness
+
+def mkDef (k : DefKind) (n : String) (ifaces : List String := []) (fields : List (String × String) := [])
+    (members : List String := []) : Definition :=
+  { kind := k, desc := [], name := str n, dirs := [], interfaces := ifaces.map str,
+    fields := fields.map fun (f, ty) =>
+      { desc := [], name := str f, args := [], default := none, type := .named (str ty) false Pos.zero, dirs := [],
+        pos := Pos.zero },
+    types := members.map str, enumValues := [], pos := Pos.zero, builtIn := false }
+
+/-- `type Q { a: A  i: I }  type A implements I { x: Q }  type B { x: Q }  interface I { x: Q }  union U = A
+    input In { f: A }` as the loader stores it -/
+def schema : Schema :=
+  { Schema.empty with
+    query := some (str "Q"),
+    types := [(str "Q", mkDef .object "Q" [] [("a", "A"), ("i", "I")]),
+              (str "A", mkDef .object "A" ["I"] [("x", "Q")]),
+              (str "B", mkDef .object "B" [] [("x", "Q")]),
+              (str "I", mkDef .interface "I" [] [("x", "Q")]),
+              (str "U", mkDef .union "U" [] [] ["A"]),
+              (str "In", mkDef .inputObject "In" [] [("f", "A")])],
+    possibleTypes := [(str "Q", [str "Q"]), (str "A", [str "A"]), (str "B", [str "B"]), (str "I", [str "A"]),
+                      (str "U", [str "A"])] }
+
+def fld (n : String) (sub : Selections := .nil) : Selection := .field (str n) (str n) [] [] sub Pos.zero
+def one (x : Selection) : Selections := .cons x .nil
+def queryDoc (sel : Selections) (frags : List FragmentDef := []) : QueryDoc :=
+  { ops := [{ op := str "query", name := [], vars := [], dirs := [], sel := sel, pos := Pos.zero }], frags := frags }
+def frag (n tc : String) (sel : Selections := .nil) : FragmentDef :=
+  { name := str n, vars := [], typeCond := str tc, dirs := [], sel := sel, pos := Pos.zero }
+
+/-- `{ i { ... on A { x } } }` -/
+def docGood : QueryDoc := queryDoc (one (fld "i" (one (.inline (str "A") [] (one (fld "x")) Pos.zero))))
+/-- `{ i { ... on B { x } ...FB } }  fragment FB on B { x }` -/
+def docBad : QueryDoc :=
+  queryDoc (one (fld "i" (.cons (.inline (str "B") [] (one (fld "x")) Pos.zero) (one (.spread (str "FB") [] Pos.zero)))))
+    [frag "FB" "B" (one (fld "x"))]
+
+/- (a) the hypotheses hold together, and both verdicts occur under them -/
+example : possibleOK schema = true ∧ schema.type? [] = none ∧
+    Spec.wellParented schema docGood = true ∧ Spec.wellParented schema docBad = true := by decide +kernel
+example : validate [possibleFragmentSpreads] schema docGood = .ok [] ∧
+    Spec.fragmentSpreadIsPossible schema docGood = true := by decide +kernel
+example : (match validate [possibleFragmentSpreads] schema docBad with | .ok [_, _] => true | _ => false) = true ∧
+    Spec.fragmentSpreadIsPossible schema docBad = false := by decide +kernel
+
+/-- (b) `s.type? [] = none` is needed: a type stored under the empty name makes the rule judge an inline
+    fragment WITHOUT type condition (`{ ... { } }`) against that type -/
+def schemaEmptyName : Schema :=
+  { schema with types := ([], mkDef .object "") :: schema.types, possibleTypes := ([], [[]]) :: schema.possibleTypes }
+def docNoCond : QueryDoc := queryDoc (one (.inline [] [] .nil Pos.zero))
+example : possibleOK schemaEmptyName = true ∧ Spec.wellParented schemaEmptyName docNoCond = true ∧
+    (match validate [possibleFragmentSpreads] schemaEmptyName docNoCond with | .ok [_] => true | _ => false) = true ∧
+    Spec.fragmentSpreadIsPossible schemaEmptyName docNoCond = true := by decide +kernel
+
+/-- (c) `possibleOK` is needed: with an empty `PossibleTypes` relation the rule rejects `{ i { ... on A } }` -/
+def schemaNoRel : Schema := { schema with possibleTypes := [] }
+example : possibleOK schemaNoRel = false ∧ schemaNoRel.type? [] = none ∧
+    Spec.wellParented schemaNoRel docGood = true ∧
+    (match validate [possibleFragmentSpreads] schemaNoRel docGood with | .ok [_] => true | _ => false) = true ∧
+    Spec.fragmentSpreadIsPossible schemaNoRel docGood = true := by decide +kernel
+
+/-- (d) `Spec.wellParented` is needed: `{ a { x } }  fragment F on In { f { ...G } }  fragment G on B { x }` — the
+    walker finds the input field `f: A` of the input object `In` and types its selection set `A`; for the
+    specification an input object has no selectable fields and the parent of `...G` is undetermined -/
+def docInput : QueryDoc :=
+  queryDoc (one (fld "a" (one (fld "x"))))
+    [frag "F" "In" (one (fld "f" (one (.spread (str "G") [] Pos.zero)))), frag "G" "B" (one (fld "x"))]
+example : possibleOK schema = true ∧ Spec.wellParented schema docInput = false ∧
+    (match validate [possibleFragmentSpreads] schema docInput with | .ok [_] => true | _ => false) = true ∧
+    Spec.fragmentSpreadIsPossible schema docInput = true := by decide +kernel
+
+end PossibleSpreadsWitness
+end C08
+
+/-! ## SingleFieldSubscriptions -/
+section C08
+open Gql Gql.Validate Gql.Validate.Rules
+
+/-- §5.2.3.1, the rule in its own terms — SingleFieldSubscriptions reports nothing iff, for every
+    subscription operation, the root fields collected by `CollectFields` (the specification's
+    `Spec.collectRootFields`) have at most one response key and the FIRST field of every response
+    key is not an introspection field. -/
+theorem C08_SingleFieldSubscriptions_exact (s : Schema) (d : QueryDoc)
+    (hschema : subscriptionRootExact s = true)
+    (hdef : Spec.fragmentSpreadTargetDefined d = true)
+    (htc : ∀ f ∈ d.frags, f.typeCond ≠ []) :
+    validate [singleFieldSubscriptions] s d = .ok [] ↔
+      ∀ op ∈ d.ops, op.op = Spec.kwSubscription → ∀ obj, Spec.rootDef s op.op = some obj →
+        RuleRootOK (Spec.collectRootFields s d obj op.sel) := by
+  obtain ⟨evs, hw⟩ := walkDoc_isSome s.view d
+  unfold singleFieldSubscriptions
+  rw [validate_statelessP_silent s d _ _ evs hw]
+  exact singleFieldSubscriptions_exact s d evs hw (opLinked_walkDoc s.view d evs hw) hschema hdef htc
+
+/-- §5.2.3.1, completeness — a document the specification accepts is not reported -/
+theorem C08_SingleFieldSubscriptions_complete (s : Schema) (d : QueryDoc)
+    (hschema : subscriptionRootExact s = true)
+    (hdef : Spec.fragmentSpreadTargetDefined d = true)
+    (htc : ∀ f ∈ d.frags, f.typeCond ≠ [])
+    (h : Spec.singleRootField s d = true) :
+    validate [singleFieldSubscriptions] s d = .ok [] := by
+  obtain ⟨evs, hw⟩ := walkDoc_isSome s.view d
+  unfold singleFieldSubscriptions
+  rw [validate_statelessP_silent s d _ _ evs hw]
+  exact singleFieldSubscriptions_of_spec s d evs hw (opLinked_walkDoc s.view d evs hw) hschema hdef htc h
+
+/-- §5.2.3.1 — SingleFieldSubscriptions reports nothing iff the specification predicate holds, for
+    a schema whose subscription root is exact (`subscriptionRootExact`), a document whose spreads
+    are defined and whose fragment definitions have a type condition, in which every subscription
+    selects at least one root field and equal response keys mean equal field names -/
+theorem C08_SingleFieldSubscriptions (s : Schema) (d : QueryDoc)
+    (hschema : subscriptionRootExact s = true)
+    (hdef : Spec.fragmentSpreadTargetDefined d = true)
+    (htc : ∀ f ∈ d.frags, f.typeCond ≠ [])
+    (hne : subscriptionsSelectRoot s d = true)
+    (hcons : rootKeysConsistent s d = true) :
+    validate [singleFieldSubscriptions] s d = .ok [] ↔ Spec.singleRootField s d = true := by
+  obtain ⟨evs, hw⟩ := walkDoc_isSome s.view d
+  unfold singleFieldSubscriptions
+  rw [validate_statelessP_silent s d _ _ evs hw]
+  exact singleFieldSubscriptions_iff s d evs hw (opLinked_walkDoc s.view d evs hw) hschema hdef htc hne hcons
+
+/-- the same for a schema with the loader's invariants (`C07_loaded_closed`, `C07_relations_exact`)
+    whose root operation types are object types (`Spec.rootTypesAreObjects`: not enforced by the loader) -/
+theorem C08_SingleFieldSubscriptions_loaded (s : Schema) (d : QueryDoc)
+    (hc : Gql.Spec.Closed s) (hr : Gql.Spec.RelationsExact s) (hroots : Gql.Spec.rootTypesAreObjects s = true)
+    (hdef : Spec.fragmentSpreadTargetDefined d = true)
+    (htc : ∀ f ∈ d.frags, f.typeCond ≠ [])
+    (hne : subscriptionsSelectRoot s d = true)
+    (hcons : rootKeysConsistent s d = true) :
+    validate [singleFieldSubscriptions] s d = .ok [] ↔ Spec.singleRootField s d = true :=
+  C08_SingleFieldSubscriptions s d (subscriptionRootExact_of_closed s hc hr hroots) hdef htc hne hcons
+
+#print axioms C08_SingleFieldSubscriptions_exact
+#print axioms C08_SingleFieldSubscriptions_complete
+#print axioms C08_SingleFieldSubscriptions
+#print axioms C08_SingleFieldSubscriptions_loaded
+
+end C08
+
+/-! ## MaxIntrospectionDepth -/
+section C08
+open Gql Gql.Validate Gql.Validate.Rules
+
+/-- MaxIntrospectionDepth (library-specific limit; `rules/max_introspection_depth.go`): on a
+    document whose fragment spreads form no cycle (§5.5.2.2, masked form) the rule reports nothing —
+    and does not panic — iff below no field named `__schema` / `__type` a path through
+    sub-selections, inline fragments and fragment spreads passes 3 list fields. -/
+theorem C08_MaxIntrospectionDepth (s : Schema) (d : QueryDoc) (hc : Spec.noFragmentCycles d = true) :
+    validate [maxIntrospectionDepth] s d = .ok [] ↔ Spec.maxIntrospectionDepth d = true := by
+  obtain ⟨evs, hw⟩ := walkDoc_isSome s.view d
+  unfold maxIntrospectionDepth
+  rw [validate_statelessP_nil s d _ _ evs hw]
+  exact maxIntrospectionDepth_iff s d evs hw hc
+
+/-- Without any hypothesis on the document: if the specification predicate holds, the rule reports
+    nothing (every reported error is a real violation).  The converse needs `Spec.noFragmentCycles`
+    (`IntrospectionWitness.docCyc_counterexample`). -/
+theorem C08_MaxIntrospectionDepth_sound (s : Schema) (d : QueryDoc) (h : Spec.maxIntrospectionDepth d = true) :
+    validate [maxIntrospectionDepth] s d = .ok [] := by
+  obtain ⟨evs, hw⟩ := walkDoc_isSome s.view d
+  unfold maxIntrospectionDepth
+  rw [validate_statelessP_nil s d _ _ evs hw]
+  exact maxIntrospectionDepth_of_spec s d evs hw h
+
+#print axioms C08_MaxIntrospectionDepth
+#print axioms C08_MaxIntrospectionDepth_sound
+#print axioms Gql.Validate.IntrospectionWitness.docCyc_counterexample
+
+end C08
+
+/-! ## NoUnusedFragments, NoUndefinedVariables, NoUnusedVariables (per-operation scope of the walk) -/
+section C08
+open Gql Gql.Validate Gql.Validate.Rules
+
+/-- §5.5.1.4, masked form — on a document without fragment cycles (§5.5.2.2) and with pairwise
+    different fragment names (§5.5.1.1) NoUnusedFragments reports nothing iff every fragment
+    definition is the target of a spread.  (The rule asks for more than the specification text:
+    reachability from an OPERATION — and, "first fragment quirk", it also counts what the
+    stand-alone walk of the first fragment definition meets; on acyclic documents with unique names
+    the three notions coincide: `used_reachable`.) -/
+theorem C08_NoUnusedFragments (s : Schema) (d : QueryDoc) (hc : Spec.noFragmentCycles d = true)
+    (hu : Spec.fragmentNameUniqueness d = true) :
+    validate [noUnusedFragments] s d = .ok [] ↔ Spec.fragmentsMustBeUsed d = true :=
+  noUnusedFragments_iff s d hc hu
+
+/-- one direction without hypothesis: a document NoUnusedFragments accepts satisfies §5.5.1.4 -/
+theorem C08_NoUnusedFragments_complete (s : Schema) (d : QueryDoc)
+    (h : validate [noUnusedFragments] s d = .ok []) : Spec.fragmentsMustBeUsed d = true :=
+  noUnusedFragments_spec_of_silent s d h
+
+/-- the rule in its own terms, both directions without hypothesis on the document: reachability
+    from an operation suffices, and a silent rule means reachability from an operation or from the
+    first fragment definition -/
+theorem C08_NoUnusedFragments_reach (s : Schema) (d : QueryDoc) :
+    ((∀ f ∈ d.frags, ∃ op ∈ d.ops, Reach d (Spec.spreadsOfSels op.sel) f.name) →
+      validate [noUnusedFragments] s d = .ok []) ∧
+    (validate [noUnusedFragments] s d = .ok [] →
+      ∀ f ∈ d.frags, (∃ op ∈ d.ops, Reach d (Spec.spreadsOfSels op.sel) f.name) ∨
+        (∃ f1, d.frags.head? = some f1 ∧ Reach d (Spec.spreadsOfSels f1.sel) f.name)) :=
+  ⟨noUnusedFragments_complete s d, noUnusedFragments_sound s d⟩
+
+/-- §5.8.3 — NoUndefinedVariables reports nothing iff every variable used in the scope of an
+    operation (the operation and the fragment definitions it references transitively, the
+    directives of the definitions included) is defined by it; for documents with pairwise different
+    fragment names whose default values are constant (what the grammar allows) -/
+theorem C08_NoUndefinedVariables (s : Schema) (d : QueryDoc) (hu : Spec.fragmentNameUniqueness d = true)
+    (hcd : constDefaults d = true) :
+    validate [noUndefinedVariables] s d = .ok [] ↔ Spec.allVariableUsesDefined s d = true := by
+  obtain ⟨evs, hw⟩ := walkDoc_isSome s.view d
+  unfold noUndefinedVariables
+  rw [validate_stateless_nil s d _ _ evs hw]
+  exact noUndefinedVariables_iff s d evs hw hu hcd
+
+/-- §5.8.4 — NoUnusedVariables reports nothing iff every variable of an operation is used in its
+    scope; additionally the variable names of each operation are pairwise different (§5.8.1: the
+    walker marks the FIRST definition of a name as used) -/
+theorem C08_NoUnusedVariables (s : Schema) (d : QueryDoc) (hu : Spec.fragmentNameUniqueness d = true)
+    (hcd : constDefaults d = true) (hv : Spec.variableUniqueness d = true) :
+    validate [noUnusedVariables] s d = .ok [] ↔ Spec.allVariablesUsed s d = true := by
+  obtain ⟨evs, hw⟩ := walkDoc_isSome s.view d
+  unfold noUnusedVariables
+  rw [validate_stateless_nil s d _ _ evs hw]
+  exact noUnusedVariables_iff s d evs hw hu hcd hv
+
+namespace ScopeWitness
+def at' (n : Nat) : Pos := { start := n, stop := n + 1, line := 1, col := n + 1 }
+def fld (n : String) (args : List Argument := []) (p : Nat := 0) : Selection := .field [] (str n) args [] .nil (at' p)
+def frag (n : String) (sel : Selections) (p : Nat) : FragmentDef :=
+  { name := str n, vars := [], typeCond := str "Q", dirs := [], sel := sel, pos := at' p }
+def query (vars : List VarDef) (sel : Selections) : OperationDef :=
+  { op := str "query", name := [], vars := vars, dirs := [], sel := sel, pos := at' 0 }
+def var (n : String) (p : Nat) (dflt : Option Value := none) : VarDef :=
+  { var := str n, type := .named (str "Int") false Pos.zero, default := dflt, dirs := [], pos := at' p }
+def useVar (n : String) (p : Nat) : List Argument :=
+  [{ name := str "x", value := .mk .variable (str n) .nil (at' p), pos := at' (p - 1) }]
+
+/-- `{ ...A } fragment A on Q { ...B } fragment B on Q { y }` -/
+def docChain : QueryDoc :=
+  { ops := [query [] (.cons (.spread (str "A") [] (at' 2)) .nil)],
+    frags := [frag "A" (.cons (.spread (str "B") [] (at' 30)) .nil) 10, frag "B" (.cons (fld "y" [] 50) .nil) 40] }
+/-- `{ ...C } fragment C on Q { y } fragment A on Q { ...B } fragment B on Q { ...A }`: a cycle nobody reaches -/
+def docCycle : QueryDoc :=
+  { ops := [query [] (.cons (.spread (str "C") [] (at' 2)) .nil)],
+    frags := [frag "C" (.cons (fld "y" [] 15) .nil) 10,
+              frag "A" (.cons (.spread (str "B") [] (at' 30)) .nil) 20, frag "B" (.cons (.spread (str "A") [] (at' 60)) .nil) 40] }
+/-- `{ ...A } fragment A on Q { x } fragment A on Q { ...B } fragment B on Q { y }`: `B` is spread
+    only by the second (shadowed) definition of `A` -/
+def docShadow : QueryDoc :=
+  { ops := [query [] (.cons (.spread (str "A") [] (at' 2)) .nil)],
+    frags := [frag "A" (.cons (fld "x" [] 20) .nil) 10, frag "A" (.cons (.spread (str "B") [] (at' 50)) .nil) 40,
+              frag "B" (.cons (fld "y" [] 80) .nil) 70] }
+
+/-- `query($a: Int) { f(x: $a) }` -/
+def docVarOk : QueryDoc := { ops := [query [var "a" 6] (.cons (fld "f" (useVar "a" 20) 15) .nil)], frags := [] }
+/-- `query($a: Int) { f(x: $b) }` -/
+def docVarUndef : QueryDoc := { ops := [query [var "a" 6] (.cons (fld "f" (useVar "b" 20) 15) .nil)], frags := [] }
+/-- `query($a: Int = $b) { f(x: $a) }` (not grammatical: a default value is constant) -/
+def docVarDefault : QueryDoc :=
+  { ops := [query [var "a" 6 (some (.mk .variable (str "b") .nil (at' 12)))] (.cons (fld "f" (useVar "a" 20) 15) .nil)], frags := [] }
+/-- `query($a: Int, $a: Int) { f(x: $a) }` -/
+def docVarTwice : QueryDoc := { ops := [query [var "a" 6, var "a" 12] (.cons (fld "f" (useVar "a" 25) 20) .nil)], frags := [] }
+end ScopeWitness
+open ScopeWitness
+
+/-- the hypotheses of `C08_NoUnusedFragments` are satisfiable (both sides true) … -/
+example : Spec.noFragmentCycles docChain = true ∧ Spec.fragmentNameUniqueness docChain = true ∧
+    validate [noUnusedFragments] Schema.empty docChain = .ok [] ∧ Spec.fragmentsMustBeUsed docChain = true := by
+  decide +kernel
+/-- … `hc` is needed: an unreachable cycle uses its members (specification) but no operation does (rule) … -/
+example : Spec.noFragmentCycles docCycle = false ∧ Spec.fragmentNameUniqueness docCycle = true ∧
+    validate [noUnusedFragments] Schema.empty docCycle ≠ .ok [] ∧ Spec.fragmentsMustBeUsed docCycle = true := by
+  decide +kernel
+/-- … and `hu` is needed: a spread written in a shadowed definition counts for the specification only -/
+example : Spec.noFragmentCycles docShadow = true ∧ Spec.fragmentNameUniqueness docShadow = false ∧
+    validate [noUnusedFragments] Schema.empty docShadow ≠ .ok [] ∧ Spec.fragmentsMustBeUsed docShadow = true := by
+  decide +kernel
+
+/-- the hypotheses of `C08_NoUndefinedVariables` / `C08_NoUnusedVariables` are satisfiable, both sides true … -/
+example : Spec.fragmentNameUniqueness docVarOk = true ∧ constDefaults docVarOk = true ∧ Spec.variableUniqueness docVarOk = true ∧
+    validate [noUndefinedVariables] Schema.empty docVarOk = .ok [] ∧ Spec.allVariableUsesDefined Schema.empty docVarOk = true ∧
+    validate [noUnusedVariables] Schema.empty docVarOk = .ok [] ∧ Spec.allVariablesUsed Schema.empty docVarOk = true := by
+  decide +kernel
+/-- … both sides false … -/
+example : Spec.fragmentNameUniqueness docVarUndef = true ∧ constDefaults docVarUndef = true ∧ Spec.variableUniqueness docVarUndef = true ∧
+    validate [noUndefinedVariables] Schema.empty docVarUndef ≠ .ok [] ∧ Spec.allVariableUsesDefined Schema.empty docVarUndef = false ∧
+    validate [noUnusedVariables] Schema.empty docVarUndef ≠ .ok [] ∧ Spec.allVariablesUsed Schema.empty docVarUndef = false := by
+  decide +kernel
+/-- … `hcd` is needed: a variable inside a default value is a use for the walker, not for the specification … -/
+example : constDefaults docVarDefault = false ∧
+    validate [noUndefinedVariables] Schema.empty docVarDefault ≠ .ok [] ∧
+    Spec.allVariableUsesDefined Schema.empty docVarDefault = true := by
+  decide +kernel
+/-- … and `hv` is needed for NoUnusedVariables: the second definition of a name is never marked used -/
+example : Spec.variableUniqueness docVarTwice = false ∧ constDefaults docVarTwice = true ∧
+    validate [noUnusedVariables] Schema.empty docVarTwice ≠ .ok [] ∧ Spec.allVariablesUsed Schema.empty docVarTwice = true := by
+  decide +kernel
+
+#print axioms C08_NoUnusedFragments
+#print axioms C08_NoUnusedFragments_complete
+#print axioms C08_NoUnusedFragments_reach
+#print axioms C08_NoUndefinedVariables
+#print axioms C08_NoUnusedVariables
+end C08
+
+/-! ## VariablesInAllowedPosition -/
+section C08
+open Gql Gql.Validate Gql.Validate.Rules VarPositionWitness
+
+/-- §5.8.5, rule-exact — VariablesInAllowedPosition reports nothing iff every variable usage in the
+    scope of every operation is allowed WHEN THE DEFAULT VALUE OF THE LOCATION IS IGNORED
+    (`hasLocationDefaultValue = false`; the rule never reads it: recorded finding) -/
+theorem C08_VariablesInAllowedPosition_iff (s : Schema) (d : QueryDoc)
+    (hwp : Spec.wellParented s d = true) (hu : Spec.fragmentNameUniqueness d = true)
+    (hcd : constDefaults d = true) (hs : inputPositionsPlain s = true) (hn : variableTypesNamed d = true) :
+    validate [variablesInAllowedPosition] s d = .ok [] ↔
+      (d.ops.all fun op => (Spec.scopeUses s d op).all fun u =>
+        match Spec.varDefByName op u.name, u.loc with
+        | some v, some lt => Spec.isVariableUsageAllowed v lt false
+        | _, _ => true) = true := by
+  obtain ⟨evs, hw⟩ := walkDoc_isSome s.view d
+  unfold variablesInAllowedPosition
+  rw [validate_stateless_nil s d _ _ evs hw]
+  exact variablesInAllowedPosition_iff s d evs hw hwp hu hcd hs hn
+
+/-- §5.8.5 — under the same hypotheses, when no variable usage in scope sits at a location with a
+    default value, VariablesInAllowedPosition reports nothing iff the specification predicate holds -/
+theorem C08_VariablesInAllowedPosition (s : Schema) (d : QueryDoc)
+    (hwp : Spec.wellParented s d = true) (hu : Spec.fragmentNameUniqueness d = true)
+    (hcd : constDefaults d = true) (hs : inputPositionsPlain s = true) (hn : variableTypesNamed d = true)
+    (hld : (d.ops.all fun op => (Spec.scopeUses s d op).all fun u => !u.locDefault) = true) :
+    validate [variablesInAllowedPosition] s d = .ok [] ↔ Spec.allVariableUsagesAllowed s d = true :=
+  (C08_VariablesInAllowedPosition_iff s d hwp hu hcd hs hn).trans (ignoring_iff_allVariableUsagesAllowed s d hld)
+
+/-- §5.8.5 — the same under the weakest form of the extra hypothesis: every usage at a location
+    with a default value is allowed without the help of that default -/
+theorem C08_VariablesInAllowedPosition_harmless (s : Schema) (d : QueryDoc)
+    (hwp : Spec.wellParented s d = true) (hu : Spec.fragmentNameUniqueness d = true)
+    (hcd : constDefaults d = true) (hs : inputPositionsPlain s = true) (hn : variableTypesNamed d = true)
+    (hld : defaultedLocationsHarmless s d = true) :
+    validate [variablesInAllowedPosition] s d = .ok [] ↔ Spec.allVariableUsagesAllowed s d = true :=
+  (C08_VariablesInAllowedPosition_iff s d hwp hu hcd hs hn).trans (ignoring_iff_allVariableUsagesAllowed' s d hld)
+
+/-- §5.8.5, the direction that needs no hypothesis on location defaults: a document the rule
+    accepts satisfies the specification predicate (what the specification rejects, the rule reports) -/
+theorem C08_VariablesInAllowedPosition_complete (s : Schema) (d : QueryDoc)
+    (hwp : Spec.wellParented s d = true) (hu : Spec.fragmentNameUniqueness d = true)
+    (hcd : constDefaults d = true) (hs : inputPositionsPlain s = true) (hn : variableTypesNamed d = true)
+    (h : validate [variablesInAllowedPosition] s d = .ok []) : Spec.allVariableUsagesAllowed s d = true :=
+  allVariableUsagesAllowed_of_ignoring s d ((C08_VariablesInAllowedPosition_iff s d hwp hu hcd hs hn).1 h)
+
+/-- the recorded finding as a theorem: `type Q { f(r: Int! = 5): Int }`, `query($v: Int) { f(r: $v) }` —
+    every hypothesis of `C08_VariablesInAllowedPosition_iff` holds, the specification allows the
+    usage (the location has a default value), the rule reports it -/
+theorem C08_VariablesInAllowedPosition_counterexample_location_default :
+    Spec.wellParented schemaLocDefault docNullable = true ∧ Spec.fragmentNameUniqueness docNullable = true ∧
+    constDefaults docNullable = true ∧ inputPositionsPlain schemaLocDefault = true ∧
+    variableTypesNamed docNullable = true ∧
+    Spec.allVariableUsagesAllowed schemaLocDefault docNullable = true ∧
+    validate [variablesInAllowedPosition] schemaLocDefault docNullable ≠ .ok [] ∧
+    noUsageAtDefaultedLocation schemaLocDefault docNullable = false := by
+  decide
+
+/-- non-vacuity: all hypotheses of `C08_VariablesInAllowedPosition` hold together, both sides true
+    (`query($v: Int) { f(r: $v) }` against `f(r: Int): Int`) … -/
+example : Spec.wellParented schemaPlain docNullable = true ∧ Spec.fragmentNameUniqueness docNullable = true ∧
+    constDefaults docNullable = true ∧ inputPositionsPlain schemaPlain = true ∧ variableTypesNamed docNullable = true ∧
+    noUsageAtDefaultedLocation schemaPlain docNullable = true ∧
+    validate [variablesInAllowedPosition] schemaPlain docNullable = .ok [] ∧
+    Spec.allVariableUsagesAllowed schemaPlain docNullable = true := by decide
+
+/-- … and both sides false (`query($v: Int!) { f(r: $v) }` against `f(r: [Int]): Int`) -/
+example : Spec.wellParented schemaListArg docNonNull = true ∧ inputPositionsPlain schemaListArg = true ∧
+    noUsageAtDefaultedLocation schemaListArg docNonNull = true ∧
+    validate [variablesInAllowedPosition] schemaListArg docNonNull ≠ .ok [] ∧
+    Spec.allVariableUsagesAllowed schemaListArg docNonNull = false := by decide
+
+/-- with a non-null variable the location default does not matter: both sides accept
+    (`defaultedLocationsHarmless` holds although `noUsageAtDefaultedLocation` does not) -/
+example : defaultedLocationsHarmless schemaLocDefault docNonNull = true ∧
+    noUsageAtDefaultedLocation schemaLocDefault docNonNull = false ∧ validate [variablesInAllowedPosition] schemaLocDefault docNonNull = .ok [] ∧
+    Spec.allVariableUsagesAllowed schemaLocDefault docNonNull = true := by decide
+
+/-- `inputPositionsPlain_of_closed` is not vacuous: the schema of the finding is closed and its scalars carry no fields -/
+example : Gql.Spec.Closed schemaLocDefault ∧
+    (∀ p ∈ schemaLocDefault.types, p.2.kind = .scalar ∨ p.2.kind = .enum → p.2.fields = []) := by
+  refine ⟨⟨by decide, by decide, by decide, by decide, by decide, by decide, by decide, ⟨?_, ?_, ?_⟩,
+    by decide, by decide⟩, by decide⟩
+  · intro n h
+    cases h
+    decide
+  · intro n h
+    cases h
+  · intro n h
+    cases h
+
+/-- `inputPositionsPlain` is needed: with an OBJECT type as argument type the walker types the
+    fields of the literal from `Definition.Fields`, the specification gives them no location type —
+    the rule reports `{x: $v}`, the predicate holds; all other hypotheses hold -/
+example : inputPositionsPlain schemaObjectArg = false ∧
+    Spec.wellParented schemaObjectArg docObjectArg = true ∧ Spec.fragmentNameUniqueness docObjectArg = true ∧
+    constDefaults docObjectArg = true ∧ variableTypesNamed docObjectArg = true ∧
+    validate [variablesInAllowedPosition] schemaObjectArg docObjectArg ≠ .ok [] ∧
+    usagesAllowedIgnoringLocationDefault schemaObjectArg docObjectArg = true := by decide
+
+/-- `variableTypesNamed` is needed: a variable of the named type with the empty name passes
+    `IsCompatible` at a list location — the rule is silent, the predicate fails -/
+example : variableTypesNamed docEmptyTypeName = false ∧
+    Spec.wellParented schemaListArg docEmptyTypeName = true ∧ Spec.fragmentNameUniqueness docEmptyTypeName = true ∧
+    constDefaults docEmptyTypeName = true ∧ inputPositionsPlain schemaListArg = true ∧
+    validate [variablesInAllowedPosition] schemaListArg docEmptyTypeName = .ok [] ∧
+    usagesAllowedIgnoringLocationDefault schemaListArg docEmptyTypeName = false := by decide
+
+/-- `constDefaults` is needed: the walker judges a variable written inside a default value, the
+    specification does not look there -/
+example : constDefaults docVarInDefault = false ∧
+    Spec.wellParented schemaPlain docVarInDefault = true ∧ Spec.fragmentNameUniqueness docVarInDefault = true ∧
+    inputPositionsPlain schemaPlain = true ∧ variableTypesNamed docVarInDefault = true ∧
+    validate [variablesInAllowedPosition] schemaPlain docVarInDefault ≠ .ok [] ∧
+    usagesAllowedIgnoringLocationDefault schemaPlain docVarInDefault = true := by decide
+
+/-- `Spec.fragmentNameUniqueness` is needed: of two definitions of the same name (here at the same
+    position) the walker follows the first, `Spec.opFragments` takes both -/
+example : Spec.fragmentNameUniqueness docTwoFragments = false ∧
+    Spec.wellParented schemaPlain docTwoFragments = true ∧ constDefaults docTwoFragments = true ∧
+    inputPositionsPlain schemaPlain = true ∧ variableTypesNamed docTwoFragments = true ∧
+    validate [variablesInAllowedPosition] schemaPlain docTwoFragments = .ok [] ∧
+    usagesAllowedIgnoringLocationDefault schemaPlain docTwoFragments = false := by decide +kernel
+
+/-- `Spec.wellParented` is needed: on an input object used as a parent type the walker finds the
+    "field" and its argument definitions, the specification no field definition -/
+example : Spec.wellParented schemaInputParent docInputParent = false ∧
+    Spec.fragmentNameUniqueness docInputParent = true ∧ constDefaults docInputParent = true ∧
+    inputPositionsPlain schemaInputParent = true ∧ variableTypesNamed docInputParent = true ∧
+    validate [variablesInAllowedPosition] schemaInputParent docInputParent ≠ .ok [] ∧
+    usagesAllowedIgnoringLocationDefault schemaInputParent docInputParent = true := by decide
+
+#print axioms C08_VariablesInAllowedPosition_iff
+#print axioms C08_VariablesInAllowedPosition
+#print axioms C08_VariablesInAllowedPosition_harmless
+#print axioms C08_VariablesInAllowedPosition_complete
+#print axioms C08_VariablesInAllowedPosition_counterexample_location_default
+
+end C08
+
+/-! ## ValuesOfCorrectType -/
+section C08
+open Gql Gql.Validate Gql.Validate.Rules
+
+/-- §5.6.1 — schemas without `@oneOf`: ValuesOfCorrectType reports nothing iff every literal at a
+    position with a declared type is coercible to it (and the `@oneOf` clause, which is vacuous here) -/
+theorem C08_ValuesOfCorrectType_partial (s : Schema) (d : QueryDoc)
+    (hwp : Spec.wellParented s d = true) (hschema : schemaOK s = true) (hno : noOneOf s = true)
+    (hroots : rootsInput s d = true) (hnum : numLiteralsOK s d = true) (hwf : leavesWellFormed s d = true) :
+    validate [valuesOfCorrectType] s d = .ok [] ↔
+      (Spec.valuesOfCorrectType s d && Spec.oneOfVariablesNonNull s d) = true := by
+  obtain ⟨evs, hw⟩ := walkDoc_isSome s.view d
+  unfold valuesOfCorrectType
+  rw [validate_stateless_nil s d _ _ evs hw, oneOfVariablesNonNull_of_noOneOf s d hno, Bool.and_true]
+  exact valuesOfCorrectType_iff s d evs hw hwp hschema hroots hnum hwf hno
+
+/-- the same, with the hypotheses on the schema and on the declared types taken from `Gql.Spec.Closed`
+    (which loaded schemas satisfy, `C07`) and from the check's mask `Spec.variablesAreInputTypes` -/
+theorem C08_ValuesOfCorrectType_closed (s : Schema) (d : QueryDoc)
+    (hwp : Spec.wellParented s d = true) (hschema : schemaOK s = true) (hno : noOneOf s = true)
+    (hargs : Gql.Spec.ClosedArgTypes s) (hdargs : Gql.Spec.ClosedDirectiveArgTypes s)
+    (hvars : Spec.variablesAreInputTypes s d = true)
+    (hnum : numLiteralsOK s d = true) (hwf : leavesWellFormed s d = true) :
+    validate [valuesOfCorrectType] s d = .ok [] ↔
+      (Spec.valuesOfCorrectType s d && Spec.oneOfVariablesNonNull s d) = true :=
+  C08_ValuesOfCorrectType_partial s d hwp hschema hno (rootsInput_of_closed s d hargs hdargs hvars) hnum hwf
+
+/-- WITH `@oneOf`: the rule is complete — if it reports nothing then both specification predicates hold
+    (documents with distinct fragment names) -/
+theorem C08_ValuesOfCorrectType_complete (s : Schema) (d : QueryDoc)
+    (hwp : Spec.wellParented s d = true) (hfu : Spec.fragmentNameUniqueness d = true) (hschema : schemaOK s = true)
+    (hroots : rootsInput s d = true) (hnum : numLiteralsOK s d = true)
+    (h : validate [valuesOfCorrectType] s d = .ok []) :
+    (Spec.valuesOfCorrectType s d && Spec.oneOfVariablesNonNull s d) = true := by
+  obtain ⟨evs, hw⟩ := walkDoc_isSome s.view d
+  unfold valuesOfCorrectType at h
+  rw [validate_stateless_nil s d _ _ evs hw] at h
+  rw [Bool.and_eq_true]
+  refine ⟨?_, oneOfVariablesNonNull_of_silent s d evs hw h hwp hfu⟩
+  refine (run_pure_iff s d evs hw hwp hschema hroots hnum).1 (fun e he w exp dfn hp => ?_)
+  have := (step_nil_iff s.view d e w exp dfn hp).1 (h e he)
+  simp only [stepOK, localOK_split, Bool.and_eq_true] at this
+  exact this.1.1
+
+/-- §5.6.1 with `@oneOf`: ValuesOfCorrectType reports nothing iff every literal at a position with a declared
+    type is coercible to it and no `@oneOf` field is given by a variable of a nullable type -/
+theorem C08_ValuesOfCorrectType (s : Schema) (d : QueryDoc)
+    (hwp : Spec.wellParented s d = true) (hfu : Spec.fragmentNameUniqueness d = true) (hcd : constDefaults d = true)
+    (hschema : schemaOK s = true) (hroots : rootsInput s d = true) (hnum : numLiteralsOK s d = true)
+    (hwf : leavesWellFormed s d = true) (hpos : usePosDistinct s d = true) :
+    validate [valuesOfCorrectType] s d = .ok [] ↔
+      (Spec.valuesOfCorrectType s d && Spec.oneOfVariablesNonNull s d) = true := by
+  constructor
+  · exact C08_ValuesOfCorrectType_complete s d hwp hfu hschema hroots hnum
+  · intro h
+    rw [Bool.and_eq_true] at h
+    obtain ⟨evs, hw⟩ := walkDoc_isSome s.view d
+    unfold valuesOfCorrectType
+    rw [validate_stateless_nil s d _ _ evs hw]
+    exact (valuesOfCorrectType_iff_oneOfVar s d evs hw hwp hschema hroots hnum hwf).2
+      ⟨h.1, oneOfVar_of_spec s d evs hw hwp hfu hcd hschema hroots h.1 h.2 hpos⟩
+
+/-- the same for a LOADED schema: `Gql.Spec.Closed` and `Gql.Spec.HasBuiltins` (`C07`), scalar definitions declare no
+    fields, and the check's mask `Spec.variablesAreInputTypes` -/
+theorem C08_ValuesOfCorrectType_loaded (s : Schema) (d : QueryDoc)
+    (hclosed : Gql.Spec.Closed s) (hb : Gql.Spec.HasBuiltins s)
+    (hsf : ∀ p ∈ s.types, p.2.kind = .scalar → p.2.fields = [])
+    (hvars : Spec.variablesAreInputTypes s d = true)
+    (hwp : Spec.wellParented s d = true) (hfu : Spec.fragmentNameUniqueness d = true) (hcd : constDefaults d = true)
+    (hnum : numLiteralsOK s d = true) (hwf : leavesWellFormed s d = true) (hpos : usePosDistinct s d = true) :
+    validate [valuesOfCorrectType] s d = .ok [] ↔
+      (Spec.valuesOfCorrectType s d && Spec.oneOfVariablesNonNull s d) = true :=
+  C08_ValuesOfCorrectType s d hwp hfu hcd (schemaOK_of_closed s hclosed.keys hclosed.fieldTypes hb hsf)
+    (rootsInput_of_closed s d hclosed.argTypes hclosed.directiveArgTypes hvars) hnum hwf hpos
+
+#print axioms C08_ValuesOfCorrectType
+#print axioms C08_ValuesOfCorrectType_loaded
+#print axioms C08_ValuesOfCorrectType_partial
+#print axioms C08_ValuesOfCorrectType_closed
+#print axioms C08_ValuesOfCorrectType_complete
+end C08
+
+/-- FINDING (a verdict-level disagreement on parser-produced input, confirmed on the real validator):
+    `{ f(a: 1<309 zeros>) }` with `f(a: Float): Int` — an IntValue that no finite double represents, given
+    where a Float is expected — is accepted by ValuesOfCorrectType (and by every other rule) while
+    `Spec.valuesOfCorrectType` is false (§3.5.2).  All hypotheses of `C08_ValuesOfCorrectType` except
+    `numLiteralsOK` hold. -/
+theorem C08_ValuesOfCorrectType_counterexample_int_beyond_double :
+    let s := Gql.Validate.ValuesEx.schemaWith (Gql.Validate.Witness.tNamed "Float") []
+    let d := Gql.Validate.ValuesEx.docArg Gql.Validate.ValuesEx.bigInt
+    Gql.Validate.validate [Gql.Validate.Rules.valuesOfCorrectType] s d = .ok [] ∧
+      Gql.Validate.Spec.valuesOfCorrectType s d = false ∧ Gql.Validate.numLiteralsOK s d = false ∧
+      (Gql.Validate.Spec.wellParented s d && Gql.Validate.schemaOK s && Gql.Validate.rootsInput s d &&
+        Gql.Validate.leavesWellFormed s d) = true := by
+  decide +kernel
+
+#print axioms C08_ValuesOfCorrectType_counterexample_int_beyond_double
+
+/-! ## Capstone: the rules with a proved equivalence, run together -/
+section C08
+open Gql Gql.Validate Gql.Validate.Rules
+
+/-- a rule list with pairwise different names reports nothing iff every member, run alone, reports
+    nothing (`C18_union`, `C18_ok_of_members`, `C18_errors_tagged`) -/
+theorem C08_rule_list_silent_iff (rs : List Rule) (s : Schema) (d : QueryDoc) (hd : (rs.map (·.name)).Nodup) :
+    validate rs s d = .ok [] ↔ ∀ r ∈ rs, validate [r] s d = .ok [] := by
+  constructor
+  · intro h r hr
+    have := C18_union rs s d [] hd h r hr
+    simpa using this
+  · intro h
+    obtain ⟨errs, he⟩ := C18_ok_of_members rs s d (fun r hr => ⟨[], h r hr⟩)
+    rw [he]
+    congr 1
+    apply List.eq_nil_iff_forall_not_mem.2
+    intro x hx
+    obtain ⟨r, hr, hn⟩ := List.mem_map.1 (C18_errors_tagged rs s d errs he x hx)
+    have h1 := C18_union rs s d errs hd he r hr
+    rw [h r hr] at h1
+    injection h1 with h1
+    have : x ∈ errs.filter fun y => decide (y.rule = r.name) := List.mem_filter.2 ⟨hx, by simp [hn]⟩
+    rw [← h1] at this
+    cases this
+
+/-- the default rules with a proved equivalence, in default order: all but
+    OverlappingFieldsCanBeMerged -/
+def c08Rules : List Rule :=
+  [ fieldsOnCorrectType, fragmentsOnCompositeTypes, knownArgumentNames, knownDirectives, knownFragmentNames,
+    knownRootType, knownTypeNames, loneAnonymousOperation, maxIntrospectionDepth, noFragmentCycles,
+    noUndefinedVariables, noUnusedFragments, noUnusedVariables, possibleFragmentSpreads, providedRequiredArguments,
+    scalarLeafs, singleFieldSubscriptions, uniqueArgumentNames, uniqueDirectivesPerLocation, uniqueFragmentNames,
+    uniqueInputFieldNames, uniqueOperationNames, uniqueVariableNames, valuesOfCorrectType, variablesAreInputTypes,
+    variablesInAllowedPosition ]
+
+/-- the specification predicates that are NOT compared by the capstone (their rules have no
+    equivalence theorem in `c08Rules`) -/
+def c08Uncovered : List String := ["fieldSelectionMerging"]
+
+/-- `c08Rules` is the default rule list without the rule named above, in the same order -/
+theorem C08_rules_are_default_rules :
+    c08Rules.map (·.name) = (defaultRules.map (·.name)).filter fun n =>
+      !([str "OverlappingFieldsCanBeMerged"].contains n) := by
+  decide
+
+/-- hypotheses of the capstone that are not specification predicates themselves: the shape of
+    parser-produced documents, the invariants of loaded schemas, and the two "other rules reject
+    this" side conditions of SingleFieldSubscriptions -/
+structure C08Hyps (s : Schema) (d : QueryDoc) : Prop where
+  /-- operation kinds are the parser's -/
+  kinds : ∀ op ∈ d.ops, op.op ∈ parserOpKinds
+  /-- every selection is written where the type in scope is composite (fails only together with
+      other specification predicates, see the header) -/
+  wellParented : Spec.wellParented s d = true
+  outputTypes : Spec.fieldTypesAreOutputTypes s d = true
+  noEmptyTypeName : s.type? [] = none
+  possibleOK : possibleOK s = true
+  subscriptionRoot : subscriptionRootExact s = true
+  /-- only list and object literals have children (parser) -/
+  valuesShaped : valuesShaped s d = true
+  /-- default values are constant (grammar) -/
+  constDefaults : constDefaults d = true
+  /-- fragment definitions have a type condition (grammar) -/
+  typeConds : ∀ f ∈ d.frags, f.typeCond ≠ []
+  /-- every subscription collects at least one root field -/
+  selectRoot : subscriptionsSelectRoot s d = true
+  /-- collected root fields with the same response key have the same field name -/
+  rootKeys : rootKeysConsistent s d = true
+  /-- argument and input-field types resolve to input objects or to definitions without fields (loaded schemas) -/
+  inputPositions : inputPositionsPlain s = true
+  /-- the recorded finding about VariablesInAllowedPosition is not triggered: every variable usage at
+      a location WITH a default value is allowed even without that default -/
+  defaultedLocations : defaultedLocationsHarmless s d = true
+  /-- ValuesOfCorrectType: built-in scalar names are scalars, scalars declare no fields, input-field
+      types resolve to input types (loaded schemas: `schemaOK_of_closed`) -/
+  schemaOK : schemaOK s = true
+  argTypes : Gql.Spec.ClosedArgTypes s
+  directiveArgTypes : Gql.Spec.ClosedDirectiveArgTypes s
+  /-- numeric literals are IntValue / FloatValue lexemes on which the library's conversion and the
+      specification's range tests agree; in particular no IntValue beyond the finite doubles (finding) -/
+  numLiterals : numLiteralsOK s d = true
+  /-- leaf literals are lexemes of their kind (lexer) -/
+  leaves : leavesWellFormed s d = true
+  /-- two variable usages that start at the same offset are the same usage (parser) -/
+  usePos : usePosDistinct s d = true
+
+/-- **C08, partial verdict**: for the 26 default rules with a proved equivalence, run together
+    (`validate c08Rules`), the validator accepts exactly the documents that satisfy the 27
+    specification predicates these rules stand for — all of `Spec.specVerdicts` except field
+    merging (§5.3.2).
+    The masked forms of the single-rule theorems need no hypothesis here: their prerequisites are
+    members of the same conjunction. -/
+theorem C08_default_rules_iff_spec_partial (s : Schema) (d : QueryDoc) (h : C08Hyps s d) :
+    validate c08Rules s d = .ok [] ↔
+      ((Spec.specVerdicts s d).filter (fun p => !c08Uncovered.contains p.1)).all (·.2) = true := by
+  have hspec : ((Spec.specVerdicts s d).filter (fun p => !c08Uncovered.contains p.1)).all (·.2) = true ↔
+    (Spec.operationNameUniqueness d = true ∧ Spec.loneAnonymousOperation d = true ∧ Spec.singleRootField s d = true ∧
+     Spec.knownRootType s d = true ∧ Spec.fieldSelections s d = true ∧ Spec.leafFieldSelections s d = true ∧
+     Spec.argumentNames s d = true ∧ Spec.argumentUniqueness s d = true ∧ Spec.requiredArguments s d = true ∧
+     Spec.fragmentNameUniqueness d = true ∧ Spec.fragmentSpreadTypeExistence s d = true ∧
+     Spec.fragmentsOnCompositeTypes s d = true ∧ Spec.fragmentsMustBeUsed d = true ∧
+     Spec.fragmentSpreadTargetDefined d = true ∧ Spec.noFragmentCycles d = true ∧
+     Spec.fragmentSpreadIsPossible s d = true ∧
+     (Spec.valuesOfCorrectType s d && Spec.oneOfVariablesNonNull s d) = true ∧ Spec.inputObjectFieldUniqueness s d = true ∧
+     Spec.directivesAreDefined s d = true ∧ Spec.directivesInValidLocations s d = true ∧
+     Spec.directivesUniquePerLocation s d = true ∧ Spec.variableUniqueness d = true ∧
+     Spec.variablesAreInputTypes s d = true ∧ Spec.allVariableUsesDefined s d = true ∧
+     Spec.allVariablesUsed s d = true ∧ Spec.allVariableUsagesAllowed s d = true ∧ Spec.maxIntrospectionDepth d = true) := by
+    simp only [Spec.specVerdicts, c08Uncovered]
+    simp [List.filter, List.all]
+  rw [hspec, C08_rule_list_silent_iff c08Rules s d (by decide)]
+  simp only [c08Rules, List.mem_cons, List.not_mem_nil, or_false, forall_eq_or_imp, forall_eq]
+  constructor
+  · rintro ⟨r1, r2, r3, r4, r5, r6, r7, r8, r9, r10, r11, r12, r13, r14, r15, r16, r17, r18, r19, r20, r21, r22, r23, rv, r24, r25⟩
+    have lone := (C08_LoneAnonymousOperation s d).1 r8
+    have opNames := (C08_UniqueOperationNames s d lone).1 r22
+    have varUniq := (C08_UniqueVariableNames s d).1 r23
+    have fragUniq := (C08_UniqueFragmentNames s d).1 r20
+    have spreadsDef := (C08_KnownFragmentNames s d).1 r5
+    have dirs := (C08_KnownDirectives s d h.kinds).1 r4
+    have cycles := (C08_NoFragmentCycles s d fragUniq).1 r10
+    have types := (C08_KnownTypeNames_VariablesAreInputTypes s d).1 ⟨r7, r24⟩
+    exact ⟨opNames, lone,
+      (C08_SingleFieldSubscriptions s d h.subscriptionRoot spreadsDef h.typeConds h.selectRoot h.rootKeys).1 r17,
+      (C08_KnownRootType s d).1 r6,
+      (C08_FieldsOnCorrectType s d h.wellParented).1 r1,
+      (C08_ScalarLeafs s d h.wellParented h.outputTypes).1 r16,
+      (C08_KnownArgumentNames s d h.wellParented h.kinds).1 r3,
+      (C08_UniqueArgumentNames s d h.kinds).1 r18,
+      (C08_ProvidedRequiredArguments s d h.wellParented h.kinds).1 r15,
+      fragUniq, types.1,
+      (C08_FragmentsOnCompositeTypes s d h.noEmptyTypeName).1 r2,
+      (C08_NoUnusedFragments s d cycles fragUniq).1 r12,
+      spreadsDef, cycles,
+      (C08_PossibleFragmentSpreads s d h.wellParented h.noEmptyTypeName h.possibleOK).1 r14,
+      (C08_ValuesOfCorrectType s d h.wellParented fragUniq h.constDefaults h.schemaOK
+        (rootsInput_of_closed s d h.argTypes h.directiveArgTypes types.2) h.numLiterals h.leaves h.usePos).1 rv,
+      (C08_UniqueInputFieldNames s d h.valuesShaped).1 r21,
+      dirs.1, dirs.2,
+      (C08_UniqueDirectivesPerLocation s d h.kinds dirs.1).1 r19,
+      varUniq, types.2,
+      (C08_NoUndefinedVariables s d fragUniq h.constDefaults).1 r11,
+      (C08_NoUnusedVariables s d fragUniq h.constDefaults varUniq).1 r13,
+      (C08_VariablesInAllowedPosition_harmless s d h.wellParented fragUniq h.constDefaults h.inputPositions
+        (variableTypesNamed_of_exist s d h.noEmptyTypeName (variablesAreInputTypes_exist s d types.2)) h.defaultedLocations).1 r25,
+      (C08_MaxIntrospectionDepth s d cycles).1 r9⟩
+  · rintro ⟨opNames, lone, root1, rootType, fields, leafs, argNames, argUniq, reqArgs, fragUniq, typeEx, fragComp,
+      fragsUsed, spreadsDef, cycles, possible, valuesOK, inputUniq, dirsDef, dirsLoc, dirsUniq, varUniq, varTypes, varsDef, varsUsed, varsAllowed, depth⟩
+    have types := (C08_KnownTypeNames_VariablesAreInputTypes s d).2 ⟨typeEx, varTypes⟩
+    exact ⟨(C08_FieldsOnCorrectType s d h.wellParented).2 fields,
+      (C08_FragmentsOnCompositeTypes s d h.noEmptyTypeName).2 fragComp,
+      (C08_KnownArgumentNames s d h.wellParented h.kinds).2 argNames,
+      (C08_KnownDirectives s d h.kinds).2 ⟨dirsDef, dirsLoc⟩,
+      (C08_KnownFragmentNames s d).2 spreadsDef,
+      (C08_KnownRootType s d).2 rootType,
+      types.1,
+      (C08_LoneAnonymousOperation s d).2 lone,
+      (C08_MaxIntrospectionDepth s d cycles).2 depth,
+      (C08_NoFragmentCycles s d fragUniq).2 cycles,
+      (C08_NoUndefinedVariables s d fragUniq h.constDefaults).2 varsDef,
+      (C08_NoUnusedFragments s d cycles fragUniq).2 fragsUsed,
+      (C08_NoUnusedVariables s d fragUniq h.constDefaults varUniq).2 varsUsed,
+      (C08_PossibleFragmentSpreads s d h.wellParented h.noEmptyTypeName h.possibleOK).2 possible,
+      (C08_ProvidedRequiredArguments s d h.wellParented h.kinds).2 reqArgs,
+      (C08_ScalarLeafs s d h.wellParented h.outputTypes).2 leafs,
+      (C08_SingleFieldSubscriptions s d h.subscriptionRoot spreadsDef h.typeConds h.selectRoot h.rootKeys).2 root1,
+      (C08_UniqueArgumentNames s d h.kinds).2 argUniq,
+      (C08_UniqueDirectivesPerLocation s d h.kinds dirsDef).2 dirsUniq,
+      (C08_UniqueFragmentNames s d).2 fragUniq,
+      (C08_UniqueInputFieldNames s d h.valuesShaped).2 inputUniq,
+      (C08_UniqueOperationNames s d lone).2 opNames,
+      (C08_UniqueVariableNames s d).2 varUniq,
+      (C08_ValuesOfCorrectType s d h.wellParented fragUniq h.constDefaults h.schemaOK
+        (rootsInput_of_closed s d h.argTypes h.directiveArgTypes varTypes) h.numLiterals h.leaves h.usePos).2 valuesOK,
+      types.2,
+      (C08_VariablesInAllowedPosition_harmless s d h.wellParented fragUniq h.constDefaults h.inputPositions
+        (variableTypesNamed_of_exist s d h.noEmptyTypeName (variablesAreInputTypes_exist s d varTypes)) h.defaultedLocations).2 varsAllowed⟩
+
+namespace CapstoneWitness
+def at' (n : Nat) : Pos := { start := n, stop := n + 1, line := 1, col := n + 1 }
+def tInt : GType := .named (str "Int") false Pos.zero
+def intDef : Definition :=
+  { kind := .scalar, desc := [], name := str "Int", dirs := [], interfaces := [], fields := [], types := [],
+    enumValues := [], pos := Pos.zero, builtIn := true }
+/-- `type Q { a: Int  f(x: Int): Int }` -/
+def qDef : Definition :=
+  { kind := .object, desc := [], name := str "Q", dirs := [], interfaces := [],
+    fields := [{ desc := [], name := str "a", args := [], default := none, type := tInt, dirs := [], pos := Pos.zero },
+               { desc := [], name := str "f",
+                 args := [{ desc := [], name := str "x", default := none, type := tInt, dirs := [], pos := Pos.zero }],
+                 default := none, type := tInt, dirs := [], pos := Pos.zero }],
+    types := [], enumValues := [], pos := Pos.zero, builtIn := false }
+def schema : Schema :=
+  { Schema.empty with query := some (str "Q"), types := [(str "Int", intDef), (str "Q", qDef)],
+                      possibleTypes := [(str "Q", [str "Q"])] }
+/-- `query($v: Int) { f(x: $<use>) ...F }  fragment F on Q { a }` -/
+def doc (use : String) : QueryDoc :=
+  { ops := [{ op := str "query", name := [],
+              vars := [{ var := str "v", type := tInt, default := none, dirs := [], pos := at' 6 }], dirs := [],
+              sel := .cons (.field [] (str "f")
+                        [{ name := str "x", value := .mk .variable (str use) .nil (at' 24), pos := at' 21 }] [] .nil (at' 19))
+                      (.cons (.spread (str "F") [] (at' 28)) .nil), pos := at' 0 }],
+    frags := [{ name := str "F", vars := [], typeCond := str "Q", dirs := [],
+                sel := .cons (.field [] (str "a") [] [] .nil (at' 55)) .nil, pos := at' 36 }] }
+
+/-- `query($v: Int) { f(x: $v) ...F }  fragment F on Q { a }` -/
+def docV : QueryDoc := doc "v"
+/-- `query($v: Int) { f(x: $w) ...F }  fragment F on Q { a }` -/
+def docW : QueryDoc := doc "w"
+end CapstoneWitness
+
+/-- the hypotheses of the capstone are satisfiable, with both sides true … -/
+theorem CapstoneWitness.hypsV : C08Hyps CapstoneWitness.schema CapstoneWitness.docV :=
+  { kinds := by decide +kernel, wellParented := by decide +kernel, outputTypes := by decide +kernel,
+    noEmptyTypeName := by decide +kernel, possibleOK := by decide +kernel, subscriptionRoot := by decide +kernel,
+    valuesShaped := by decide +kernel, constDefaults := by decide +kernel, typeConds := by decide +kernel,
+    selectRoot := by decide +kernel, rootKeys := by decide +kernel, inputPositions := by decide +kernel,
+    defaultedLocations := by decide +kernel, schemaOK := by decide +kernel, argTypes := by decide +kernel,
+    directiveArgTypes := by decide +kernel, numLiterals := by decide +kernel, leaves := by decide +kernel,
+    usePos := by decide +kernel }
+example : ((Spec.specVerdicts CapstoneWitness.schema CapstoneWitness.docV).filter
+    (fun p => !c08Uncovered.contains p.1)).all (·.2) = true := by decide +kernel
+example : validate c08Rules CapstoneWitness.schema CapstoneWitness.docV = .ok [] :=
+  (C08_default_rules_iff_spec_partial _ _ CapstoneWitness.hypsV).2 (by decide +kernel)
+/-- … and with both sides false (`$w` is not defined, `$v` is not used) -/
+theorem CapstoneWitness.hypsW : C08Hyps CapstoneWitness.schema CapstoneWitness.docW :=
+  { kinds := by decide +kernel, wellParented := by decide +kernel, outputTypes := by decide +kernel,
+    noEmptyTypeName := by decide +kernel, possibleOK := by decide +kernel, subscriptionRoot := by decide +kernel,
+    valuesShaped := by decide +kernel, constDefaults := by decide +kernel, typeConds := by decide +kernel,
+    selectRoot := by decide +kernel, rootKeys := by decide +kernel, inputPositions := by decide +kernel,
+    defaultedLocations := by decide +kernel, schemaOK := by decide +kernel, argTypes := by decide +kernel,
+    directiveArgTypes := by decide +kernel, numLiterals := by decide +kernel, leaves := by decide +kernel,
+    usePos := by decide +kernel }
+example : ((Spec.specVerdicts CapstoneWitness.schema CapstoneWitness.docW).filter
+    (fun p => !c08Uncovered.contains p.1)).all (·.2) = false := by decide +kernel
+example : validate c08Rules CapstoneWitness.schema CapstoneWitness.docW ≠ .ok [] := fun h =>
+  absurd ((C08_default_rules_iff_spec_partial _ _ CapstoneWitness.hypsW).1 h) (by decide +kernel)
+
+#print axioms C08_rule_list_silent_iff
+#print axioms C08_rules_are_default_rules
+#print axioms C08_default_rules_iff_spec_partial
+end C08
+
+/- axioms of the first-group theorems and of the remaining new ones -/
+#print axioms C08_FieldsOnCorrectType
+#print axioms C08_FragmentsOnCompositeTypes
+#print axioms C08_KnownArgumentNames
+#print axioms C08_KnownDirectives
+#print axioms C08_KnownFragmentNames
+#print axioms C08_LoneAnonymousOperation
+#print axioms C08_PossibleFragmentSpreads_loaded
+#print axioms C08_ProvidedRequiredArguments
+#print axioms C08_ScalarLeafs
+#print axioms C08_UniqueArgumentNames
+#print axioms C08_UniqueDirectivesPerLocation
+#print axioms C08_UniqueDirectivesPerLocation_complete
+#print axioms C08_UniqueFragmentNames
+#print axioms C08_UniqueOperationNames
+#print axioms C08_UniqueOperationNames_iff
+#print axioms C08_UniqueVariableNames
+#print axioms C08_default_LoneAnonymousOperation
